@@ -9,10 +9,11 @@ to `u64`. This file shows that the result is exactly `⌊N · unit / 10^d⌋` wh
 -/
 namespace Imdlv.ByteSize
 
-/-- the arithmetic core: `q = ⌊A·P/D⌋` rounded to `m ∈ {q, q+1}` (exact when the division is),
-then `⌊m/P⌋`, is `⌊A/D⌋` as soon as `P > D` -/
-theorem frac_floor (A D P m : Nat) (hD : 0 < D) (hP : D < P)
-    (hm : m = A * P / D ∨ m = A * P / D + 1) (hex : (A * P) % D = 0 → m = A * P / D) :
+/-- the arithmetic core: `q = ⌊A·P/D⌋` rounded to `m ∈ {q, q+1}` (exact when the division is; up
+only when the remainder is at least half of `D`), then `⌊m/P⌋`, is `⌊A/D⌋` as soon as `2P > D` -/
+theorem frac_floor (A D P m : Nat) (hD : 0 < D) (hP : D < 2 * P)
+    (hm : m = A * P / D ∨ m = A * P / D + 1) (hex : (A * P) % D = 0 → m = A * P / D)
+    (hup : m = A * P / D + 1 → D ≤ 2 * ((A * P) % D)) :
     m / P = A / D := by
   have hP0 : 0 < P := by omega
   -- A = D*F + ρ
@@ -26,7 +27,9 @@ theorem frac_floor (A D P m : Nat) (hD : 0 < D) (hP : D < P)
     rw [hAP, Nat.add_mul_div_left _ _ hD]
   have hr : (A * P) % D = (ρ * P) % D := by
     rw [hAP, Nat.add_mul_mod_self_left]
-  generalize hu : ρ * P / D = u at hq
+  have hdm := Nat.div_add_mod (ρ * P) D
+  generalize hu : ρ * P / D = u at hq hdm
+  generalize hrr : (ρ * P) % D = r at hr hdm
   have hult : u < P := by
     rw [← hu]
     apply Nat.div_lt_of_lt_mul
@@ -35,42 +38,54 @@ theorem frac_floor (A D P m : Nat) (hD : 0 < D) (hP : D < P)
   · -- exact division
     subst h0
     have hu0 : u = 0 := by rw [← hu]; simp
+    have hr0 : r = 0 := by rw [← hrr]; simp
     have : m = F * P := by
-      have := hex (by rw [hr]; simp)
+      have := hex (by rw [hr, hr0])
       rw [this, hq, hu0]; simp
     rw [this, Nat.mul_div_cancel _ hP0]
-  · -- inexact: u ≤ P - 2
-    have hu2 : u + 2 ≤ P := by
-      apply Classical.byContradiction
-      intro hc
-      have hge : P - 1 ≤ u := by omega
-      rw [← hu] at hge
-      have h1 : (P - 1) * D ≤ ρ * P := (Nat.le_div_iff_mul_le hD).mp hge
-      have h2 : ρ * P ≤ (D - 1) * P := Nat.mul_le_mul_right _ (by omega)
-      have h3 : (P - 1) * D ≤ (D - 1) * P := Nat.le_trans h1 h2
-      obtain ⟨P', rfl⟩ : ∃ P', P = P' + 1 := ⟨P - 1, by omega⟩
-      obtain ⟨D', rfl⟩ : ∃ D', D = D' + 1 := ⟨D - 1, by omega⟩
-      simp only [Nat.add_sub_cancel] at h3
-      rw [Nat.mul_add, Nat.mul_add, Nat.mul_one, Nat.mul_one, Nat.mul_comm D' P'] at h3
-      omega
-    have hlo : F * P ≤ m := by rcases hm with h | h <;> rw [h, hq] <;> omega
+  · have hlo : F * P ≤ m := by rcases hm with h | h <;> rw [h, hq] <;> omega
     have hhi : m < (F + 1) * P := by
       rw [Nat.succ_mul]
-      rcases hm with h | h <;> rw [h, hq] <;> omega
+      by_cases hu2 : u + 2 ≤ P
+      · rcases hm with h | h <;> rw [h, hq] <;> omega
+      · -- u = P - 1: the remainder is below half of D, so the rounding went down
+        have hu1 : u = P - 1 := by omega
+        have hmq : m = A * P / D := by
+          rcases hm with h | h
+          · exact h
+          · exfalso
+            have hD2 := hup h
+            rw [hr] at hD2
+            -- ρ*P = D*u + r and ρ ≤ D - 1
+            have h2 : ρ * P ≤ (D - 1) * P := Nat.mul_le_mul_right _ (by omega)
+            obtain ⟨P', rfl⟩ : ∃ P', P = P' + 1 := ⟨P - 1, by omega⟩
+            obtain ⟨D', rfl⟩ : ∃ D', D = D' + 1 := ⟨D - 1, by omega⟩
+            simp only [Nat.add_sub_cancel] at h2 hu1
+            rw [hu1] at hdm
+            rw [← hdm] at h2
+            rw [Nat.add_mul, Nat.one_mul, Nat.mul_add, Nat.mul_one, Nat.mul_comm D' P'] at h2
+            omega
+        rw [hmq, hq]; omega
     exact Nat.div_eq_of_lt_le hlo hhi
 
 /-- normalisation of `rn53` on values below 2^52: the exponent is negative, the quotient that gets
 rounded has 53 significant bits, the mantissa is that quotient or the next integer, and exactly the
 quotient when the division is exact -/
-theorem rn53_small_value (num den : Nat) (hn : 0 < num) (hd : 0 < den) (hlt : num < 2 ^ 52) :
+theorem rn53_small_value (num den : Nat) (hn : 0 < num) (hd : 0 < den) (hlt : num < 2 ^ 50 * den) :
     ∃ s : Nat, 0 < s ∧ (rn53 num den).2 = -(s : Int) ∧ 2 ^ 52 ≤ num * 2 ^ s / den ∧
       ((rn53 num den).1 = num * 2 ^ s / den ∨ (rn53 num den).1 = num * 2 ^ s / den + 1) ∧
-      ((num * 2 ^ s) % den = 0 → (rn53 num den).1 = num * 2 ^ s / den) := by
+      ((num * 2 ^ s) % den = 0 → (rn53 num den).1 = num * 2 ^ s / den) ∧
+      ((rn53 num den).1 = num * 2 ^ s / den + 1 → den ≤ 2 * ((num * 2 ^ s) % den)) := by
   have hn0 : num ≠ 0 := by omega
   have hd0 : den ≠ 0 := by omega
   obtain ⟨halo, hahi⟩ := log2_bounds num hn0
   obtain ⟨hblo, hbhi⟩ := log2_bounds den hd0
-  have ha51 : Nat.log2 num ≤ 51 := log2_le_of_lt_pow num 51 hn0 hlt
+  have ha51 : Nat.log2 num ≤ Nat.log2 den + 50 := by
+    apply log2_le_of_lt_pow num (Nat.log2 den + 50) hn0
+    have h1 : 2 ^ 50 * den < 2 ^ 50 * 2 ^ (Nat.log2 den + 1) := Nat.mul_lt_mul_of_pos_left hbhi (Nat.two_pow_pos 50)
+    have h2 : 2 ^ 50 * 2 ^ (Nat.log2 den + 1) = 2 ^ (Nat.log2 den + 50 + 1) := by
+      rw [← Nat.pow_add]; congr 1; omega
+    omega
   generalize ha : Nat.log2 num = a at *
   generalize hb : Nat.log2 den = b at *
   -- E = a - b - 52 < 0
@@ -81,15 +96,21 @@ theorem rn53_small_value (num den : Nat) (hn : 0 < num) (hd : 0 < den) (hlt : nu
        let q := num' / den
        let r := num' % den
        let m := if 2 * r > den ∨ (2 * r = den ∧ q % 2 = 1) then q + 1 else q
-       (m = num * 2 ^ s / den ∨ m = num * 2 ^ s / den + 1) ∧ ((num * 2 ^ s) % den = 0 → m = num * 2 ^ s / den)) := by
+       (m = num * 2 ^ s / den ∨ m = num * 2 ^ s / den + 1) ∧ ((num * 2 ^ s) % den = 0 → m = num * 2 ^ s / den) ∧
+         (m = num * 2 ^ s / den + 1 → den ≤ 2 * ((num * 2 ^ s) % den))) := by
     intro s _ _
     dsimp only
-    refine ⟨?_, ?_⟩
+    refine ⟨?_, ?_, ?_⟩
     · split <;> simp
     · intro hz
       have h1 : ¬ (2 * (num * 2 ^ s % den) > den) := by rw [hz]; omega
       have h2 : ¬ (2 * (num * 2 ^ s % den) = den ∧ num * 2 ^ s / den % 2 = 1) := by rw [hz]; omega
       simp [h1, h2]
+    · split
+      · rename_i hc
+        intro _
+        rcases hc with hc | hc <;> omega
+      · intro hc; omega
   unfold rn53
   simp only [hn0, if_false, ha, hb]
   by_cases hq : scaledQ num den ((a : Int) - (b : Int) - 52) ≥ 2 ^ 52
